@@ -193,7 +193,7 @@ forms!(text::Dna, TEXT_RAW, 24, 3, text;
 
 // ---- through an owned (heap-backed) sequence and through a k-mer
 harnesses_inner! {
-    fn c03_q_owned_dna_range [4] {
+    fn c03_q_owned_dna_range [10] {
         let w = any_words::<2>();
         let len = any_usize();
         assume(len <= 64);
@@ -204,7 +204,7 @@ harnesses_inner! {
         check_sub::<Dna>(&oracle::DNA, &w, &s[a..b], a, b - a);
         core::mem::forget(s);
     }
-    fn c03_q_owned_amino_oob_xp [4] {
+    fn c03_q_owned_amino_oob_xp [10] {
         let w = any_words::<2>();
         let len = any_usize();
         assume(len <= 21);
@@ -217,7 +217,7 @@ harnesses_inner! {
         let _ = sub.len();
         must_not_return!("C03.oob.owned_range_returned_a_slice");
     }
-    fn c03_q_kmer_deref_dna_k32 [4] {
+    fn c03_q_kmer_deref_dna_k32 [10] {
         let v = any_usize();
         let k = kmer::<Dna, 32>(v);
         let s: &SeqSlice<Dna> = &k;
@@ -225,7 +225,7 @@ harnesses_inner! {
         assume(a <= b && b <= 32);
         check_sub::<Dna>(&oracle::DNA, &[v], &s[a..b], a, b - a);
     }
-    fn c03_q_kmer_deref_amino_k10 [4] {
+    fn c03_q_kmer_deref_amino_k10 [10] {
         let v = any_usize();
         assume(v < (1 << 60));
         let k = kmer::<Amino, 10>(v);
